@@ -604,13 +604,14 @@ def normSqr (x : Tensor α) : Except PyErr (Tensor α) := do
 
 end ring
 
-/-! ### division, modulus, sigmoid (cplx.py:268-301, 326-408 of the tree with `proposed/F17_all.diff` applied)
+/-! ### division, modulus, sigmoid (cplx.py:268-301, 326-408)
 
-The formulas are those of the code AFTER the proposed repairs F17 (`proposed/F17_*.diff`): the modulus is `torch.hypot`,
+The formulas are those of the code as it is since fix F17 (/repo commit 7038bfb; the patches are kept in `proposed/F17_*.diff`, the
+tags "after F17_…" below name the part of that commit): the modulus is `torch.hypot`,
 quotients scale the divisor by its larger component before `|·|²` is formed, `norm` scales by the largest component, the
 sigmoid forms `e^{-z}` in the right half plane and `e^{z}` in the left one.  Over ℝ these are the same numbers as the
 textbook formulas (theorems `C15_absolute_value`, `C15_inverse`, …); over `Float` no intermediate leaves the finite range
-when the result is representable, which the pre-repair formulas (`|z|²` formed explicitly, `e^z/(1+e^z)`) do for moduli
+when the result is representable, which the pre-F17 formulas (`|z|²` formed explicitly, `e^z/(1+e^z)`) did for moduli
 beyond 1e±154 resp. `Re z > 709.78`. -/
 section field
 variable {α : Type} [Add α] [Mul α] [Neg α] [Sub α] [Div α] [Zero α] [One α] [Transc α] [LT α] [DecidableLT α]
